@@ -43,6 +43,17 @@ fn main() {
             for m in &ms { if let Err(e) = validate214(&m.wasm, FeatureSet::DEFAULT) { bad += 1; if bad < 5 { println!("{} : {}", m.coords, e); } } }
             println!("{} members, {} invalid", ms.len(), bad);
         }
+        "stateful" => {
+            for (n, w) in wgen::stateful::stateful_modules() {
+                if n != av[2] { continue; }
+                let mut m = walrus::Module::from_buffer(&w).unwrap();
+                let out = m.emit_wasm();
+                let (a, b) = (decode(&w).unwrap(), decode(&out).unwrap());
+                println!("iso: {:?}", iso(&a, &b, IsoMode::RoundTrip).map(|m| m.renumbered()));
+                println!("in : {}", hex(&w));
+                println!("out: {}", hex(&out));
+            }
+        }
         "reachvalid" => {
             let ms = wgen::families::reach_family(wgen::Tier::Quick);
             let mut bad = 0;
